@@ -72,4 +72,8 @@ def run(chk, tier):
             if not any(txt.lower() == a.lower() for a in al):
                 return f"algorithm name {txt!r} does not identify {name}"
         return None
-    chk.run_family(["default"], ops, oracle=oracle)
+    cfgs = ["default", "cpuoff", "forcesoft", "kuzsoft", "kuzcompact"] if tier == "quick" else \
+        ["default", "cpuoff", "forcesoft", "compact", "softcompact", "kuzsoft", "kuzcompact", "serpentloop", "release", "allfeat"]
+    for cn in cfgs:
+        first.clear()
+        chk.run_family([cn], ops, oracle=oracle)
